@@ -115,6 +115,7 @@ func loadProgram(repoDir string, depSpecDir string) (*Program, error) {
 	if err := p.register(); err != nil {
 		return nil, err
 	}
+	curProgram = p
 	return p, nil
 }
 
